@@ -36,6 +36,7 @@ type c08Case struct {
 	Lead   bool   `json:"small_message_first"`
 	Split  bool   `json:"field_boundary_at_limit"` // the first L encoded bytes are complete fields, more fields follow
 	Prefix uint64 `json:"length_prefix,omitempty"`
+	Frag   int    `json:"ws_fragments,omitempty"` // WebSocket: the message is sent as this many frames
 }
 
 const defaultRecvLimit = 4 * 1024 * 1024
@@ -207,6 +208,9 @@ func (e *c08Env) execRecv(tc *c08Case) (oracle, note string) {
 		} else {
 			smallEnc, _ = proto.Marshal(small)
 		}
+		if len(smallEnc) > L {
+			return "", "n/a" // the leading message itself would exceed this limit
+		}
 	}
 	streaming := strings.HasSuffix(tc.Proto, "-stream") || strings.HasPrefix(tc.Proto, "grpc") || strings.HasPrefix(tc.Proto, "web") || tc.Proto == "ws"
 	if tc.Lead && !streaming {
@@ -295,7 +299,7 @@ func (e *c08Env) execRecv(tc *c08Case) (oracle, note string) {
 		if tc.Lead {
 			frames = append(frames, wsText(smallEnc)...)
 		}
-		frames = append(frames, wsText(bigEnc)...)
+		frames = append(frames, wsFrag(bigEnc, tc.Frag)...)
 		res = doWS(m, "/ws/bidi", "", nil, frames, nil)
 	default:
 		return "harness", tc.Proto
@@ -479,15 +483,29 @@ func (e *c08Env) execPrefix(tc *c08Case) (oracle, note string) {
 func c08Cases(thorough bool) []c08Case {
 	var out []c08Case
 	limits := []int{32, 100, 1000}
+	if thorough {
+		// varint length boundaries (127/128, 16383/16384), powers of two, tiny and large limits
+		limits = []int{8, 16, 32, 33, 100, 127, 128, 129, 255, 256, 1000, 4096, 16383, 16384, 16385, 65536, 1 << 20}
+	}
 	recvProtos := []string{"http-json", "http-proto", "http-body", "http-json-stream", "http-proto-stream", "grpc", "grpc+json", "web", "webtext", "ws"}
 	for _, p := range recvProtos {
 		for _, L := range limits {
-			for _, t := range []int{L - 3, L - 2, L - 1, L, L + 1, L + 2, L + 3, 2 * L, 2*L + 1, 64 * 1024} {
+			targets := []int{L - 3, L - 2, L - 1, L, L + 1, L + 2, L + 3, 2 * L, 2*L + 1, 64 * 1024}
+			if thorough {
+				targets = append(targets, L-6, L-5, L-4, L+4, L+5, L+6, L/2, 3*L, 10*L)
+			}
+			for _, t := range targets {
 				for _, gz := range []bool{false, true} {
 					if gz && (p == "ws") {
 						continue
 					}
 					for _, lead := range []bool{false, true} {
+						if p == "ws" {
+							// fragmented messages: the limit applies to the reassembled message
+							for _, k := range []int{2, 3, 5} {
+								out = append(out, c08Case{Kind: "recv", Proto: p, L: L, Target: t, Lead: lead, Frag: k})
+							}
+						}
 						out = append(out, c08Case{Kind: "recv", Proto: p, Gzip: gz, L: L, Target: t, Lead: lead})
 						if t > L+2 && t <= 2*L+1 {
 							out = append(out, c08Case{Kind: "recv", Proto: p, Gzip: gz, L: L, Target: t, Lead: lead, Split: true})
@@ -510,7 +528,11 @@ func c08Cases(thorough bool) []c08Case {
 	}
 	// send limits: S with L below and above it
 	for _, p := range []string{"http-json", "http-proto", "grpc", "grpc+json", "grpc-ss", "web"} {
-		for _, sl := range [][2]int{{100, 50}, {100, 1000}, {0, 50}, {100, 0}, {4096, 100}} {
+		sls := [][2]int{{100, 50}, {100, 1000}, {0, 50}, {100, 0}, {4096, 100}}
+		if thorough {
+			sls = append(sls, [2]int{127, 127}, [2]int{128, 64}, [2]int{16384, 100}, [2]int{33, 1 << 20}, [2]int{1 << 16, 1 << 16})
+		}
+		for _, sl := range sls {
 			S, L := sl[0], sl[1]
 			base := S
 			if S == 0 {
@@ -539,7 +561,7 @@ func c08Cases(thorough bool) []c08Case {
 
 func runC08(c *Ctx) {
 	r := c.Run
-	r.Rule("receive: protocol{HTTP unary json/proto/HttpBody, HTTP stream json/proto, gRPC (+json), gRPC-web, gRPC-web-text, WebSocket} × gzip{off,on (Content-Encoding / per-message grpc-encoding, highly compressible payload)} × limit{32,100,1000,default 4MiB} × encoded size{L-3..L+3,2L,2L+1,64KiB} × {alone, after a small message} × {one big field, a field boundary exactly at the limit with more fields following}; send: protocol × (send limit, receive limit) pairs with S<L, S>L and defaults × reply size around S; bogus length prefixes {L+1,2^31-1,2^31,2^32-1,2^32,2^63-1,2^63,2^64-1} with a 3-byte body; distinct = (kind, protocol, gzip, limit, size class, outcome)")
+	r.Rule("receive: protocol{HTTP unary json/proto/HttpBody, HTTP stream json/proto, gRPC (+json), gRPC-web, gRPC-web-text, WebSocket} × gzip{off,on (Content-Encoding / per-message grpc-encoding, highly compressible payload)} × limit{32,100,1000,default 4MiB; thorough: 17 limits incl. 127/128/129, 16383/16384/16385, 2^16, 2^20} × encoded size{L-3..L+3,2L,2L+1,64KiB; thorough: L-6..L+6, L/2, 3L, 10L} × {alone, after a small message} × WebSocket messages in {1,2,3,5} frames × {one big field, a field boundary exactly at the limit with more fields following}; send: protocol × (send limit, receive limit) pairs with S<L, S>L and defaults × reply size around S; bogus length prefixes {L+1,2^31-1,2^31,2^32-1,2^32,2^63-1,2^63,2^64-1} with a 3-byte body; distinct = (kind, protocol, gzip, limit, size class, outcome)")
 	r.Assume("sizes are measured in the codec used on the wire, after decompression; the message carries one string field so the size is an exact function of its length", "what happens to replies above the send limit is not part of the property")
 	cases := c08Cases(c.Thorough())
 	envs := make([]*c08Env, explore.Workers)
@@ -555,7 +577,7 @@ func runC08(c *Ctx) {
 		r.Eval(1)
 		if oracle != "" {
 			r.Outcome("FAIL:" + oracle)
-			r.Violation(report.Violation{Oracle: oracle, Key: fmt.Sprintf("%s kind=%s proto=%s gzip=%v L=%d S=%d size=%d lead=%v split=%v prefix=%d", oracle, tc.Kind, tc.Proto, tc.Gzip, tc.L, tc.S, tc.Target, tc.Lead, tc.Split, tc.Prefix), Case: *tc, Note: note})
+			r.Violation(report.Violation{Oracle: oracle, Key: fmt.Sprintf("%s kind=%s proto=%s gzip=%v L=%d S=%d size=%d lead=%v split=%v prefix=%d frag=%d", oracle, tc.Kind, tc.Proto, tc.Gzip, tc.L, tc.S, tc.Target, tc.Lead, tc.Split, tc.Prefix, tc.Frag), Case: *tc, Note: note})
 			return
 		}
 		r.Outcome(tc.Kind + ":" + note)
